@@ -149,7 +149,24 @@ class Engine:
             p = os.path.join(d, "state", "cache.json")
             with open(p, "wb") as f:
                 f.write(case["old_cache"])
-            os.chmod(p, 0o600)
+            # the old file may have come from elsewhere (restored, copied,
+            # created by another tool) with a wider mode
+            os.chmod(p, case.get("old_mode", 0o600))
+
+    def lax_files(self, case, state):
+        """Files of the state directory readable by group/others, except the
+        pre-existing cache file as long as it is still the pre-existing one."""
+        out = []
+        for fn in sorted(os.listdir(state)):
+            p = os.path.join(state, fn)
+            mode = os.stat(p).st_mode & 0o777
+            if not mode & 0o077:
+                continue
+            if fn == "cache.json" and case.get("old_cache") is not None and case.get("old_mode", 0o600) & 0o077:
+                if open(p, "rb").read() == case["old_cache"]:
+                    continue
+            out.append("file %s left with mode %o (secret-bearing files are created owner-only, whatever they replace)" % (fn, mode))
+        return out
 
     # ---- record ----
     def record(self, case):
@@ -171,7 +188,7 @@ class Engine:
                 if e["name"] == "openat" and e["strs"] and e["strs"][0].endswith(live_name) and e["ret"] and e["ret"].isdigit():
                     if any(f in e["raw"] for f in ("O_WRONLY", "O_RDWR")):
                         live_fds.add(e["ret"])
-            return dict(main=main, wb=wb, we=we, ev=ev, live_fds=live_fds), None
+            return dict(main=main, wb=wb, we=we, ev=ev, live_fds=live_fds, lax=self.lax_files(case, os.path.join(d, "state"))), None
         finally:
             shutil.rmtree(d, ignore_errors=True)
 
@@ -180,7 +197,7 @@ class Engine:
         live = (b"secrets.db" if case["script"]["mode"] != "cache" else b"cache.json")
         main, wb, we = rec["main"], rec["wb"], rec["we"]
         win = main[wb + 1 : we]
-        bad = []
+        bad = list(rec.get("lax", []))
         tmpfd, tmppath, last_write, synced, renamed = None, None, -1, -1, -1
         for i, e in enumerate(win):
             n = e["name"]
@@ -301,11 +318,9 @@ class Engine:
             else:
                 msgs += self.judge_after_error(case, rec, ev, rc, err, d)
             # leftovers: owner-only, no plaintext
+            msgs += self.lax_files(case, state)
             for fn in os.listdir(state):
                 p = os.path.join(state, fn)
-                mode = os.stat(p).st_mode & 0o777
-                if mode & 0o077:
-                    msgs.append("file %s left with mode %o (must be owner-only)" % (fn, mode))
                 data = open(p, "rb").read()
                 if case["script"]["mode"] != "cache":
                     for mk in case.get("markers", []):
@@ -343,7 +358,7 @@ class Engine:
             elif not v.get("err") or old is not None:
                 if got not in ((old or b""), new):
                     msgs.append("after a kill the cache file holds neither the old nor the new document (%d bytes)" % len(got))
-            if v.get("mode") and v["mode"] != "600":
+            if v.get("mode") and int(v["mode"], 8) & 0o077 and not (got == (old or b"") and "%o" % case.get("old_mode", 0o600) == v["mode"]):
                 msgs.append("after a kill the cache file has mode %s" % v["mode"])
             return msgs
         if v.get("err"):
@@ -481,7 +496,7 @@ def gen_cases(rng, per_kind, want_cache, want_db, kinds=None):
             if rng.random() < 0.75:
                 old = json.dumps({"old": {"secret": {"Value": base64.b64encode(b"old-%d" % rep).decode(), "Version": 1}, "lastAccess": "1"}}).encode()
             new = json.dumps({"new%d" % rep: {"secret": {"Value": base64.b64encode(os.urandom(rng.choice([8, 4000]))).decode(), "Version": 2}, "lastAccess": "2"}}).encode()
-            cases.append(dict(name="cache-%d" % rep, kind="cache-write", old_cache=old,
+            cases.append(dict(name="cache-%d" % rep, kind="cache-write", old_cache=old, old_mode=rng.choice([0o600, 0o600, 0o644, 0o640, 0o666]),
                               script=dict(mode="cache", cache=base64.b64encode(new).decode())))
     return cases
 
